@@ -1336,3 +1336,53 @@ pub fn zero_rtt_rejection_native(accept: bool) -> u32 {
         1
     }
 }
+
+/// Native replay body for the E2 slice query `e2_poll_transmit_close_budget_slice` (C13), and public-path
+/// demonstration for finding 13: an established connection (optionally with an ACK pending) is closed by
+/// the application with error code `code` and a reason of `reason_len` bytes; the closing datagram that
+/// `poll_transmit` emits must not be larger than the path MTU estimate, however long the reason is and
+/// however many bytes the error code needs.
+pub fn close_budget_native(reason_len: u16, acks: bool, code: u64) -> u32 {
+    if code >= 1 << 62 {
+        return 0;
+    }
+    let mut conn = mk_migratable_server();
+    let now = crate::verif::mk_instant(51, 0).unwrap();
+    if acks {
+        deliver_short(&mut conn, now, addr(1, 4433), 10, &[0x01]);
+    }
+    let mtu = conn.path.current_mtu() as usize;
+    conn.close(now, VarInt::from_u64(code).unwrap(), Bytes::from(vec![0x61u8; reason_len as usize]));
+    let mut buf = Vec::with_capacity(4096);
+    let t = conn.poll_transmit(now, 1, &mut buf).expect("a close is announced at once");
+    assert!(t.size <= mtu, "the closing datagram has {} bytes, the path MTU estimate is {}", t.size, mtu);
+    assert!(t.size == buf.len());
+    1 + acks as u32
+}
+
+/// Native replay body for the E2 slice query `e2_populate_packet_datagram_loop_slice` (C16): an established
+/// connection has `n` small datagrams queued and its sender marked as blocked; one call of `poll_transmit`
+/// sends the whole queue in one packet (the DATAGRAM loop ends because the queue is empty, i.e. on a failed
+/// `write`).  The application must be told that datagrams can be sent again.
+pub fn datagram_unblock_native(n: u8) -> u32 {
+    let mut conn = mk_migratable_server();
+    conn.peer_params.max_datagram_frame_size = Some(VarInt::from_u32(65535));
+    let now = crate::verif::mk_instant(51, 0).unwrap();
+    for i in 0..n.max(1) {
+        assert!(conn.datagrams().send(Bytes::from(vec![i; 40]), false).is_ok());
+    }
+    conn.datagrams.send_blocked = true;
+    conn.spaces[SpaceId::Data].pending.new_tokens.clear(); // the stand-in token key cannot seal NEW_TOKEN tokens
+    let mut buf = Vec::with_capacity(4096);
+    let t = conn.poll_transmit(now, 1, &mut buf).expect("queued datagrams are sent");
+    assert!(t.size > 40 && conn.datagrams.outgoing.is_empty(), "the queue fits one packet");
+    let mut unblocked = 0;
+    while let Some(e) = conn.poll() {
+        if matches!(e, Event::DatagramsUnblocked) {
+            unblocked += 1;
+        }
+    }
+    assert!(unblocked == 1, "a blocked sender's queue was transmitted but DatagramsUnblocked was reported {} times", unblocked);
+    assert!(!conn.datagrams.send_blocked);
+    1
+}
